@@ -399,6 +399,14 @@ thread_local! {
     pub static CAUGHT_FIRED: std::cell::Cell<u64> = std::cell::Cell::new(0);
 }
 
+struct AssertSend<F>(F);
+unsafe impl<F> Send for AssertSend<F> {}
+impl<F: FnOnce()> AssertSend<F> {
+    fn call(self) {
+        (self.0)()
+    }
+}
+
 fn thread_body(env: Rc<Env>, tid: u8, initial_arcs: Vec<(usize, LArc)>) {
     let p = env.p.clone();
     let nm = p.n_mutex as usize;
@@ -554,7 +562,11 @@ fn exec(cx: &mut Ctx, op: &Op, pc: usize) -> Option<u64> {
                 }
                 waited = 1;
                 rec(tid, pc, HK::Spin, Some(x));
-                loom::thread::yield_now();
+                if pc % 2 == 1 {
+                    loom::hint::spin_loop();
+                } else {
+                    loom::thread::yield_now();
+                }
             }
             Some(waited)
         }
@@ -578,7 +590,14 @@ fn exec(cx: &mut Ctx, op: &Op, pc: usize) -> Option<u64> {
                     handles.push((r, h));
                 }
             }
-            let h = loom::thread::spawn(move || thread_body(e2, t, handles));
+            // (both ways of starting a thread)
+            let h = if t % 2 == 0 {
+                // (Builder::spawn demands Send; all modeled threads run on this OS thread)
+                let body = AssertSend(move || thread_body(e2, t, handles));
+                loom::thread::Builder::new().name(format!("dsl-{}", t)).spawn(move || body.call()).unwrap()
+            } else {
+                loom::thread::spawn(move || thread_body(e2, t, handles))
+            };
             env.threads.borrow_mut()[t as usize] = Some(h.thread().clone());
             env.join.borrow_mut()[t as usize] = Some(h);
             None
@@ -675,7 +694,14 @@ fn exec(cx: &mut Ctx, op: &Op, pc: usize) -> Option<u64> {
         }
         Op::CvWait { c, m } => {
             if let Some(g) = cx.mguards[m as usize].take() {
-                let g = env.condvars[c as usize].wait(g).unwrap();
+                let g = if pc % 2 == 1 {
+                    // (loom does not model the time-out: the same as `wait`, never timed out)
+                    let (g, r) = env.condvars[c as usize].wait_timeout(g, std::time::Duration::from_millis(1)).unwrap();
+                    assert!(!r.timed_out());
+                    g
+                } else {
+                    env.condvars[c as usize].wait(g).unwrap()
+                };
                 cx.mguards[m as usize] = Some(g);
             }
             None
@@ -742,9 +768,23 @@ fn exec(cx: &mut Ctx, op: &Op, pc: usize) -> Option<u64> {
             None
         }
         Op::DropTx { .. } => None,
-        Op::CRead { c } => Some(env.cells[c as usize].with(|p| unsafe { *p })),
+        // (both access APIs of UnsafeCell are exercised: closures and the ConstPtr / MutPtr guards;
+        // which one is a fixed function of the op's position)
+        Op::CRead { c } => {
+            if (pc + c as usize) % 2 == 1 {
+                let g = env.cells[c as usize].get();
+                Some(unsafe { *g.deref() })
+            } else {
+                Some(env.cells[c as usize].with(|p| unsafe { *p }))
+            }
+        }
         Op::CWrite { c, v } => {
-            env.cells[c as usize].with_mut(|p| unsafe { *p = v });
+            if (pc + c as usize) % 2 == 1 {
+                let g = env.cells[c as usize].get_mut();
+                unsafe { *g.deref() = v };
+            } else {
+                env.cells[c as usize].with_mut(|p| unsafe { *p = v });
+            }
             None
         }
         Op::ArcClone { r } => {
@@ -849,7 +889,13 @@ fn exec(cx: &mut Ctx, op: &Op, pc: usize) -> Option<u64> {
         }
         Op::Alloc { k } => {
             if cx.blocks[k as usize].is_none() {
-                let ptr = unsafe { loom::alloc::alloc(loom::alloc::Layout::new::<u64>()) };
+                let ptr = unsafe {
+                    if pc % 2 == 1 {
+                        loom::alloc::alloc_zeroed(loom::alloc::Layout::new::<u64>())
+                    } else {
+                        loom::alloc::alloc(loom::alloc::Layout::new::<u64>())
+                    }
+                };
                 cx.blocks[k as usize] = Some(ptr);
             }
             None
